@@ -8,7 +8,8 @@ import math
 import torch
 
 from .aggsym_common import (EPS, F64, NORM_EPS, PE_NORM, ROSTER, Acc, build, call, cond_of, fmt, int_kernel,
-                            ld, maxdiff, mgda_gap, norm_eps_side, rat_vec_equal, ref_of, scaled_sides, seed_of)
+                            ld, maxdiff, mgda_gap, norm_eps_side, pad_index, present, rat_vec_equal, ref_of,
+                            scaled_sides, seed_of, split_padded)
 
 REG_LADDER = [1e-2, 1e-4, 1e-6, 1e-8, 1e-10, 1e-12]
 NORM_VARIANTS = [1e-4, 1e-2, 1e-6]
@@ -98,6 +99,63 @@ def _compare(acc, pid, r, vname, s, e, gkey, seed, x_expect, x1, tol, what_rel, 
 # ------------------------------------------------------------------------------------------ C10
 
 
+def one_object_histories(acc: Acc, job: dict, e: int, wide: bool) -> None:
+    """C10 read literally: "permuting the rows of J does not change A(J)" is about ONE aggregator A, evaluated at J
+    and at pi J.  For every aggregator of the statement that carries no per-row parameter vector, one object is
+    called on the base matrix and then, consecutively, on the row-permuted matrices of the job's scenarios, each
+    created as a TEMPORARY (J[pi], no reference kept: it is freed when the call returns and the next one is
+    allocated).  Every result must equal the object's own A(J) within the derived allowance - the same relation and
+    allowance as with a fresh object per call, which eval_rows evaluates as well.
+
+    Presentations: the matrix as exported, and (wide) the model's wide presentation of the same instance - every
+    column repeated 4^k times, scaled by 2^-k (spec WidenLaw: same Gramian, hence same weights, classification and
+    allowance; A(wide J) = wide A(J)); for m = 3, n0 = 4 that is a 3 x 4096 Jacobian."""
+    pid, scns, seed0, only = job["pid"], job["scn"], job["seed"], job.get("only")
+    s0 = scns[0]
+    cls, m = s0["cls"], s0["m"]
+    J0t = ld(s0["J0"], e)
+    pres = [("", J0t)]
+    if wide:
+        k = s0["widek"]
+        pres.append((f";wide=x{4 ** k}", torch.ldexp(J0t.repeat_interleave(4 ** k, dim=1), torch.tensor(-k))))
+    hist = job.get("history_rps")                       # replay of a recorded case: the permutations called before it
+    seq = ([dict(s0, rp=rp) for rp in hist] if hist else []) + list(scns)
+    for r in ROSTER:
+        if not r["rows"] or r["kind"] == "exact" or r["params"] is not None:
+            continue
+        vname = r["name"]
+        if only and only != vname:
+            continue
+        if r["kind"] == "conic" and e != job["scales"][0]:
+            continue                                    # the conic solver is slow: first scale of the job only
+        why = skip_reason(r, cls, e, "rows")
+        if why:
+            acc.count("skipped:" + why)
+            continue
+        seed = seed_of(seed0, s0["id"], e % 97)
+        for ptag, Jb in pres:
+            agg = build(vname)
+            x0 = call(agg, Jb, seed)                    # the base matrix stays alive
+            w1 = w1_of(agg, Jb, seed)
+            tol = (1e-4 if r["kind"] == "conic" else 64 * EPS * cond_of(r, cls, m, vname)) * ref_of(cls, e, w1)
+            done: list = []
+            for s in seq:
+                idx = torch.tensor([i - 1 for i in s["rp"]], dtype=torch.long)
+                x1 = call(agg, Jb[idx], seed)           # temporary: freed on return
+                acc.evals += 1
+                acc.count("one_object_calls_on_temporaries" + ("_wide" if ptag else ""))
+                if not hist or s is scns[-1]:
+                    gkey = "rp=" + ",".join(map(str, s["rp"])) + ";one-object" + ptag
+                    nv = len(acc.viol)
+                    _compare(acc, pid, r, vname, s, e, gkey, seed, x0, x1, tol,
+                             "A(pi J) = A(J) for ONE aggregator object called consecutively on temporaries pi J",
+                             Jb, Jb[idx], agg, agg)
+                    for v in acc.viol[nv:]:
+                        v[2]["history_rps"] = list(done)
+                        v[2]["wide"] = bool(ptag)
+                done.append(s["rp"])
+
+
 def eval_rows(job: dict):
     """C10: A_{pi P}(pi J) = A_P(J)."""
     acc = Acc()
@@ -107,6 +165,11 @@ def eval_rows(job: dict):
     cls, m = s0["cls"], s0["m"]
     for e in scales:
         J0t = ld(s0["J0"], e)
+        if job.get("histories", True) and (not job.get("clause") or job.get("clause") == "one-object"):
+            # wide presentation: a few instances (all with three rows), first scale of the job only
+            one_object_histories(acc, job, e, wide=(m == 3 and e == scales[0]) if "wide" not in job else job["wide"])
+        if job.get("clause") == "one-object":
+            continue
         cache: dict = {}
         for s in scns:
             gkey = "rp=" + ",".join(map(str, s["rp"]))
@@ -165,9 +228,12 @@ def eval_cols(job: dict):
         J0t = ld(s0["J0"], e)
         cache: dict = {}
         for s in scns:
-            Jt = ld(s["J"], e, s["den"])
-            Qt = torch.tensor(s["Q"], dtype=F64) / s["den"]
-            gkey = "Q=" + ";".join(",".join(map(str, row)) for row in s["Q"]) + f"/{s['den']}"
+            # PadZero(k, layout): the k all-zero columns are materialised only here (positions from the model)
+            padded = s["pad"]["cnt"] > 0
+            Jt = present(ld(s["J"], e, s["den"]), s)
+            Qt = present(torch.tensor(s["Q"], dtype=F64) / s["den"], s)
+            gkey = "Q=" + ";".join(",".join(map(str, row)) for row in s["Q"]) + f"/{s['den']}" + \
+                   (f";pad={s['pad']['cnt']}{s['pad']['lay']}" if padded else "")
             kern = int_kernel(s["J"])
             ident = s["steps"] == 0
             for r in ROSTER:
@@ -192,11 +258,14 @@ def eval_cols(job: dict):
                     w1 = w1_of(a1, Jt, seed)
                     ref = ref_of(cls, e, w1)
                     if r["kind"] == "exact":
-                        ok = (not isinstance(x1, str)) and rat_vec_equal(x1, expected, e)[0]
+                        # on the materialised columns the model's rational value; on the padded columns exactly 0
+                        xm, xpad = (x1, 0.0) if isinstance(x1, str) else split_padded(x1, s)
+                        ok = (not isinstance(x1, str)) and rat_vec_equal(xm, expected, e)[0] and xpad == 0.0
                         if not ok:
-                            got = x1 if isinstance(x1, str) else rat_vec_equal(x1, expected, e)[1]
+                            got = x1 if isinstance(x1, str) else rat_vec_equal(xm, expected, e)[1]
                             _report(acc, pid, vname, s, e, gkey, "value",
-                                    f"{vname} on instance {s['id']} transformed by {gkey} (scale 2^{e}) returned {got}; "
+                                    f"{vname} on instance {s['id']} transformed by {gkey} (scale 2^{e}) returned {got}"
+                                    f"{f' and {xpad:.3e} on a padded zero column' if xpad else ''}; "
                                     f"A(J)Q is {expected}", {"seed": seed})
                     else:
                         ck = vname
@@ -226,9 +295,17 @@ def eval_cols(job: dict):
                         # x = w @ J in floats whatever way w was obtained, so only ConFIG (direction from a
                         # pseudo-inverse) needs the conditioning of the instance here
                         ck_ = cond_of(r, cls, m, r["name"]) if r["name"].startswith("ConFIG") else 4.0 * m * m
+                        xm, xpad = split_padded(x1, s)
+                        if padded:                 # the unit vectors of the padded columns are in the kernel as well
+                            tolk = 64 * EPS * ck_ * ref
+                            acc.dev("rowspan", xpad, tolk)
+                            if not xpad <= tolk:
+                                _report(acc, pid, vname, s, e, gkey, "rowspan",
+                                        f"{vname}: a padded all-zero column received the update {xpad:.3e} on instance {s['id']} "
+                                        f"{gkey} scale 2^{e}", {"seed": seed})
                         for k in kern:
                             kt = torch.tensor(k, dtype=F64)
-                            d = abs(float(x1 @ kt))
+                            d = abs(float(xm @ kt))
                             tolk = 64 * EPS * ck_ * ref * float(kt.abs().sum())
                             acc.dev("rowspan", d, tolk)
                             if not d <= tolk:
@@ -241,6 +318,9 @@ def eval_cols(job: dict):
 
 
 # ------------------------------------------------------------------------------------------ C09
+
+
+_LADDER_CALLS = [0]          # UPGrad calls of the reg_eps ladder made by THIS process so far
 
 
 def _spec_norm(M: torch.Tensor) -> float:
@@ -266,6 +346,39 @@ def eval_scale(job: dict):
             cmaxs = [float(max(c)) for c in (xc, c1, c2)]
             seed = seed_of(seed0, s["id"], e % 97)
             nontrivial = c1 != c2 and (len(set(c1)) > 1 or len(set(c2)) > 1) and not cls["conflictFree"]
+            # ---- UPGrad over the reg_eps ladder, part 1: the CALLS.  They come before anything else of this case so
+            # that the first walk of a worker process starts where no UPGrad/DualProj object has been used before:
+            # fresh objects, one per rung, walked DOWN the ladder (1e-2 .. 1e-12) and then UP again in the same
+            # process.  The property quantifies over configurations; nothing allows the defect at one reg_eps to
+            # depend on which reg_eps other instances were built with earlier, in either direction.
+            walks = []
+            if not (only and not only.startswith("UPGrad")):
+                hsel = (s["id"] + sum(c1) + 3 * sum(c2) + a + 2 * b) % 2
+                for ne in [NORM_VARIANTS[0], NORM_VARIANTS[1 + hsel]]:
+                    pref = s["P"] if (s["id"] + a + b) % 2 == 0 else None
+                    # sigma_max of each of the three matrices against norm_eps, bracketed by the squared row norms
+                    # c_i^2 |g_i|^2 (exact, spec RowBracket); `small`: a non-zero singular value certified BELOW norm_eps
+                    ss = [scaled_sides(cls, s["gd"], c, e, ne) for c in (xc, c1, c2)]
+                    sides = [x[0] for x in ss]
+                    if "ambiguous" in sides or len(set(sides)) > 1:
+                        acc.count("skipped:upgrad_norm_eps_threshold_not_uniform")
+                        continue
+                    straddle = sides[0] == "above" and any(x[1] for x in ss)
+                    if straddle:
+                        acc.count("ladder_triples_with_singular_values_on_both_sides_of_norm_eps")
+                        if ne == NORM_VARIANTS[0]:
+                            acc.count("ladder_triples_straddling_the_default_norm_eps")
+                    if _LADDER_CALLS[0] == 0:
+                        acc.count("ladder_walks_descending_first_in_a_process_without_earlier_ladder_calls")
+                    outs = {}
+                    orders = [(w, [10.0 ** -k for k in s["ladder"][w]]) for w in ("down", "up")]   # from the model
+                    for walk, order in orders:
+                        for reg in order:
+                            ag = build("UPGradLadder", pref, None, (ne, reg))
+                            outs[walk, reg] = [call(ag, M, seed) for M in Ms]
+                            _LADDER_CALLS[0] += 3
+                            acc.evals += 3
+                    walks.append((ne, pref, sides, straddle, outs))
             for r in ROSTER:
                 if not r["lin"] or e in ladder_only:
                     continue
@@ -307,25 +420,9 @@ def eval_scale(job: dict):
                                     f"|A(xJ) - aA(c1J) - bA(c2J)| = {d:.3e} > allowance {tol:.3e}", {"seed": seed, "diff": d})
             if nontrivial and e not in ladder_only:
                 acc.nontriv.append((s["id"], gkey))
-            # ---- UPGrad over the reg_eps ladder
-            if only and not only.startswith("UPGrad"):
-                continue
+            # ---- UPGrad over the reg_eps ladder, part 2: the bound, per rung against that rung's reg_eps
             z0 = None
-            hsel = (s["id"] + sum(c1) + 3 * sum(c2) + a + 2 * b) % 2
-            for ne in [NORM_VARIANTS[0], NORM_VARIANTS[1 + hsel]]:
-                pref = s["P"] if (s["id"] + a + b) % 2 == 0 else None
-                # sigma_max of each of the three matrices against norm_eps, bracketed by the squared row norms
-                # c_i^2 |g_i|^2 (exact, spec RowBracket); `small`: a non-zero singular value certified BELOW norm_eps
-                ss = [scaled_sides(cls, s["gd"], c, e, ne) for c in (xc, c1, c2)]
-                sides = [x[0] for x in ss]
-                if "ambiguous" in sides or len(set(sides)) > 1:
-                    acc.count("skipped:upgrad_norm_eps_threshold_not_uniform")
-                    continue
-                straddle = sides[0] == "above" and any(x[1] for x in ss)
-                if straddle:
-                    acc.count("ladder_triples_with_singular_values_on_both_sides_of_norm_eps")
-                    if ne == NORM_VARIANTS[0]:
-                        acc.count("ladder_triples_straddling_the_default_norm_eps")
+            for ne, pref, sides, straddle, outs in walks:
                 # |v0| of the UNREGULARISED projection, needed by the derived bound (see module doc of c09):
                 # for diag(c) J the row-i projection weights are  c_i u_i D^-1 z0(e_i),  z0(e_i) = weights of the
                 # projection of row i of the well-scaled integer base matrix (oracle: reg_eps -> 0 there)
@@ -333,6 +430,7 @@ def eval_scale(job: dict):
                     Jb = torch.tensor(s["J"], dtype=F64)
                     z0 = [call(build("UPGradLadder", [1.0 if q == i else 0.0 for q in range(m)], None, (1e-30, REG_LADDER[-1])),
                                Jb, seed, weights=True) for i in range(m)]
+                    _LADDER_CALLS[0] += m
                 if any(isinstance(z, str) for z in z0):
                     acc.count("skipped:upgrad_reference_failed")
                     continue
@@ -343,29 +441,30 @@ def eval_scale(job: dict):
                     V = sum(float(c[i]) * u[i] * float((z0[i] / ct).norm()) for i in range(m))
                     S += k * _spec_norm(M) * V
                 Kc = 2.0
-                prev = None
-                for reg in REG_LADDER:
-                    vname = f"UPGrad(pref={'P' if pref else 'None'},norm_eps={ne:g},reg_eps={reg:g})"
-                    if only and only != vname:
-                        continue
-                    ag = build("UPGradLadder", pref, None, (ne, reg))
-                    xs = [call(ag, M, seed) for M in Ms]
-                    acc.evals += 3
-                    if any(isinstance(x, str) for x in xs):
-                        if not all(isinstance(x, str) for x in xs):
-                            _report(acc, pid, vname, s, e, gkey, "raises", f"{vname}: raised on some of the three scalings only "
-                                    f"instance {s['id']} {gkey}", {"seed": seed})
-                        continue
-                    d = float((xs[0] - a * xs[1] - b * xs[2]).norm())
-                    floor = 64 * EPS * 4 * m * m / math.sqrt(reg) * S
-                    bound = Kc * math.sqrt(reg) * S + floor
-                    acc.dev(f"UPGrad@{reg:g}", d, bound)
-                    if not d <= bound:
-                        _report(acc, pid, vname, s, e, gkey, "defect",
-                                f"{vname}: linearity defect {d:.3e} exceeds K*sqrt(reg_eps)*sum(s|w|) = {bound:.3e} "
-                                f"(K={Kc:g}) on instance {s['id']} ({gkey}, scale 2^{e}); previous rung defect {prev}",
-                                {"seed": seed, "defect": d, "bound": bound})
-                    prev = d
+                for walk, order in [(w, [10.0 ** -k for k in s["ladder"][w]]) for w in ("down", "up")]:
+                    prev = None
+                    for reg in order:
+                        vname = f"UPGrad(pref={'P' if pref else 'None'},norm_eps={ne:g},reg_eps={reg:g},walk={walk})"
+                        xs = outs[walk, reg]
+                        if only and only != vname:
+                            continue
+                        if any(isinstance(x, str) for x in xs):
+                            if not all(isinstance(x, str) for x in xs):
+                                _report(acc, pid, vname, s, e, gkey, "raises", f"{vname}: raised on some of the three scalings only "
+                                        f"instance {s['id']} {gkey}", {"seed": seed})
+                            continue
+                        d = float((xs[0] - a * xs[1] - b * xs[2]).norm())
+                        floor = 64 * EPS * 4 * m * m / math.sqrt(reg) * S
+                        bound = Kc * math.sqrt(reg) * S + floor
+                        acc.dev(f"UPGrad@{reg:g}", d, bound)
+                        if not d <= bound:
+                            _report(acc, pid, vname, s, e, gkey, "defect",
+                                    f"{vname}: linearity defect {d:.3e} exceeds K*sqrt(reg_eps)*sum(s|w|) = {bound:.3e} "
+                                    f"(K={Kc:g}) on instance {s['id']} ({gkey}, scale 2^{e}); fresh objects walked "
+                                    f"{'1e-2 -> 1e-12' if walk == 'down' else '1e-12 -> 1e-2 (after the walk down)'}, "
+                                    f"defect at the previous rung of this walk {prev}",
+                                    {"seed": seed, "defect": d, "bound": bound})
+                        prev = d
                 if sides[0] == "above" and not cls["conflictFree"]:
                     acc.nontriv.append((s["id"], gkey, "ladder", ne) + ((e, "straddle") if straddle else ()))
     return acc.as_tuple()
